@@ -61,8 +61,26 @@ func tableAudit() [][3]string {
 				}
 			}
 		}
+		if !f.Shadowed && f.Base == "" {
+			first := ""
+			if len(f.Steps) > 0 && len(f.Steps[0]) > 0 {
+				first = f.Steps[0][0]
+			}
+			var names []string
+			for _, st := range f.Steps {
+				names = append(names, st...)
+			}
+			add("mixed-family:"+first, fmt.Sprintf("family %d groups ids that share no common name stem (%s): ids of different licenses would reach each other through '+'", f.Index, strings.Join(names, ", ")), f.Index)
+		}
 		if f.Shadowed || f.Base == "" {
 			continue
+		}
+		for _, st := range f.Steps {
+			for _, id := range st {
+				if !strings.HasPrefix(stripSuffix(id), f.Base) {
+					add("mixed-family:"+id, fmt.Sprintf("table entry %q does not share the name stem %q of its family %d", id, f.Base, f.Index), f.Index)
+				}
+			}
 		}
 		// ascending, one version per step (entries spelled -or-later are never looked up: position unobservable)
 		prev := ""
